@@ -783,6 +783,7 @@ def chunker_event_edges(facts):
             raise AnchorLost("no facts for unsafe_libyaml::yaml_event_type_t")
         names = {v.get("discr", v["idx"]): v["name"] for v in adt["variants"]}
         out = {}
+        per_switch = []
         for n in sorted(sup.nodes(), key=str):
             body = sup.body_of(n)
             blk = body.blocks[n[1]]
@@ -792,13 +793,35 @@ def chunker_event_edges(facts):
             dl = t["discr"]["p"]["l"]
             if not any(s_["k"] == "assign" and not s_["p"]["pr"] and s_["p"]["l"] == dl and s_["rv"]["k"] == "discr" and "yaml_event_type_t" in s_["rv"]["p"].get("ty", "") for s_ in blk["stmts"]):
                 continue
+            mine = {}
             taken = set()
             for v, x in t["targets"]:
-                out.setdefault(names.get(v, f"#{v}"), []).append((n, v, (n[0], x)))
+                mine.setdefault(names.get(v, f"#{v}"), []).append((n, v, (n[0], x)))
                 taken.add(v)
             for v, nm in names.items():
                 if v not in taken:
-                    out.setdefault(nm, []).append((n, "otherwise", (n[0], t["otherwise"])))
+                    mine.setdefault(nm, []).append((n, "otherwise", (n[0], t["otherwise"])))
+            per_switch.append((n, mine))
+        # a second dispatch nested under an arm of another one (an accessor that looks at the event type again,
+        # inlined under the DOCUMENT_END arm, say) is entered only by the events of that arm: its edges for every other
+        # event are infeasible and are left out
+        for n2, mine2 in per_switch:
+            allowed = None
+            for n1, mine1 in per_switch:
+                if n1 == n2:
+                    continue
+                reach_by_event = {}
+                for nm, es in mine1.items():
+                    r = set()
+                    for _, _, dst in es:
+                        r |= set(sup.reachable_from(dst, removed_nodes=[n1]))
+                    reach_by_event[nm] = n2 in r
+                if any(reach_by_event.values()) and not all(reach_by_event.values()):
+                    ok_names = {nm for nm, v_ in reach_by_event.items() if v_}
+                    allowed = ok_names if allowed is None else (allowed & ok_names)
+            for nm, es in mine2.items():
+                if allowed is None or nm in allowed:
+                    out.setdefault(nm, []).extend(es)
         if "YAML_DOCUMENT_END_EVENT" not in out:
             raise AnchorLost("no dispatch on the libyaml event type in the chunker")
         return out
